@@ -13,7 +13,7 @@ RULE = ('nested values and (a) their deep copies, (b) their single-edit neighbou
         'emptiness is compared with structural / Python equality and the full result with the Lean model. distinct = distinct (t1, t2, config); '
         'non-trivial = t1 and t2 are not structural copies')
 TRUSTED_BASE = ['input non-mutation is observed by deep snapshots, not proved (a value model has no mutation)', 'numpy arrays and datetimes: observed only']
-ASSUMPTIONS = ['NoSpoof / NoNumAlias for the empty => equal direction with sets (finding F5e)', 'threshold_to_diff_deeper in [0, 1]']
+ASSUMPTIONS = ['NoSpoof / NoNumAlias for the empty => equal direction with sets (finding F5e)', 'set members are scalars (finding F39: tuples inside sets are compared up to order and repetition)', 'threshold_to_diff_deeper in [0, 1]']
 
 CFGS = [dict(), dict(verbose_level=2), dict(view='tree'), dict(threshold_to_diff_deeper=0), dict(threshold_to_diff_deeper=0.9, verbose_level=2),
         dict(threshold_to_diff_deeper=1, view='tree'), dict(zip_ordered_iterables=True), dict(zip_ordered_iterables=True, threshold_to_diff_deeper=0, verbose_level=2),
@@ -109,7 +109,8 @@ def run(ctx, impl_only=False):
                 ctx.violate(case, 'sharing objects between / inside the inputs changes the verdict')
     if not impl_only:
         FAM.compare_with_model(ctx, reqs)
-    wit = {'F5e': lambda: bool(DeepDiff({'NONE'}, {None}))}
+    wit = {'F5e': lambda: bool(DeepDiff({'NONE'}, {None})),
+           'F39': lambda: bool(DeepDiff({(1, 1, 2)}, {(1, 2, 2)})) and bool(DeepDiff({(1, 2)}, {(2, 1)})) and bool(DeepDiff([frozenset({(1, 2)})], [frozenset({(2, 1)})]))}
     for fid, fn in wit.items():
         ctx.evaluations += 1
         ok = fn()
